@@ -98,6 +98,14 @@ def run(chk):
                     m = e.right if "p:threshold" in e.left.tags else e.left
                     expect(chk, "R-REL", c + ".mask-operand", m, deg={R: 1}, parity={R: "even"}, sign="nonneg",
                            tags_has=["abs", "attr:_values"], loc=e.loc)
+            # an explicit emptiness test of the exceedance set (instead of the IndexError handler) must test for "no exceedance" only
+            for e in r.events("compare", "eqsig.im.calc_brac_dur"):
+                for lenv, cst, op in ((e.left, e.right, e.op), (e.right, e.left, {"Gt": "Lt", "Lt": "Gt", "GtE": "LtE", "LtE": "GtE"}.get(e.op, e.op))):
+                    if "len-of" in lenv.tags and "where-index" in lenv.tags and cst.has_const() and isinstance(cst.const, int) and lenv.kind == K_SCALAR:
+                        okg = (op, cst.const) in (("Gt", 0), ("GtE", 1), ("NotEq", 0), ("Eq", 0), ("Lt", 1), ("LtE", 0))
+                        chk.ob("R-ENDS", c + "{emptiness test}", "the fallback is taken exactly when no sample exceeds the threshold", okg,
+                               derived="tests count %s %s" % (op, cst.const), loc=e.loc, stmt=e.stmt,
+                               detail="a single exceedance is a valid bracket of zero length: (t, t), not (None, None)" if not okg else None)
             rets = r.returns()
             if not q.endswith("brac_dur"):
                 check_value(chk, c, r.ret, se, ["abs", "attr:_values"], R, [], forwarder=True)
